@@ -301,10 +301,13 @@ class _Algorithm:
                 if data is None:
                     raise TypeError('"data" and "x_data" cannot both be None')
                 input_y = True
-                y, self.x = _yx_arrays(
+                y, x = _yx_arrays(
                     data, check_finite=self._check_finite, ensure_1d=ensure_1d
                 )
+                # set x last so that other threads using this object never see
+                # x-values without the corresponding size
                 self._size = y.shape[-1]
+                self.x = x
             else:
                 if require_unique_x and not self._validated_x:
                     if np.any(self.x[1:] == self.x[:-1]):
